@@ -13,7 +13,7 @@ OUT = os.path.join(ROOT, "seeded")
 head = subprocess.run(["git", "-C", "/repo", "rev-parse", "--short", "HEAD"], capture_output=True, text=True).stdout.strip()
 matrix = {(r["round"], r["seed"]): r for r in json.load(open("/root/seed_matrix.json"))}
 rows = []
-for rnd, base in (("r1", "/root/seeds_in"), ("r2", "/root/seeds_in2"), ("r3", "/root/seeds_in3"), ("r4", "/root/seeds_in4"), ("r5", "/root/seeds_in5"), ("r6", "/root/seeds_in6"), ("r7", "/root/seeds_in7")):
+for rnd, base in (("r1", "/root/seeds_in"), ("r2", "/root/seeds_in2"), ("r3", "/root/seeds_in3"), ("r4", "/root/seeds_in4"), ("r5", "/root/seeds_in5"), ("r6", "/root/seeds_in6"), ("r7", "/root/seeds_in7"), ("r8", "/root/seeds_in8")):
     conf = {}
     cf = os.path.join(base, "confirm.json")
     if os.path.exists(cf):
